@@ -59,7 +59,7 @@ def install(ctx):
             gf = np.asarray(result.flux.to(u.mJy).value, float)
             ge = np.asarray(result.error.to(u.mJy).value, float) if result.error is not None else None
         except Exception as exc:
-            ctx.violation('convolved:result-unit', 'the interpolated table does not carry a flux unit: %r' % (exc,), wit)
+            ctx.raised(exc, 'convolved:result-unit', 'the interpolated table does not carry a flux unit: %r' % (exc,), wit)
             return True
         if had_errors and ge is None:
             ctx.violation('convolved:errors-dropped', 'the table has errors but the interpolated table has none', wit)
@@ -256,7 +256,7 @@ def run(ctx):
                     cf.interpolate(rq)
                     ctx.event('convolved:table-changed-between-calls')
         except Exception as exc:
-            ctx.violation('convolved:raised', 'ConvolvedFluxes.interpolate raised inside the table: %r' % (exc,), wit)
+            ctx.raised(exc, 'convolved:raised', 'ConvolvedFluxes.interpolate raised inside the table: %r' % (exc,), wit)
         ctx.case(('cf', it, ctx.shard), nontrivial=n_ap >= 2, sample={'table_au': tab_au, 'request_au': req} if it < 3 else None)
         if n_ap >= 2:
             below = np.append(req, tab_au[0] * (1 - 10 ** rng.uniform(-9, -0.3)))
@@ -319,7 +319,7 @@ def run(ctx):
                 s.interpolate(req.copy())
                 ctx.event('sed:fluxes-replaced-between-calls')
         except Exception as exc:
-            ctx.violation('sed:raised:%s' % type(exc).__name__, 'SED.interpolate raised for radii inside/above the table: %r' % (exc,), wit)
+            ctx.raised(exc, 'sed:raised:%s' % type(exc).__name__, 'SED.interpolate raised for radii inside/above the table: %r' % (exc,), wit)
         ctx.case(('sed', it, ctx.shard), nontrivial=n_ap >= 2)
         if n_ap >= 2:
             below = np.append(req, tab_s[0] * (1 - 10 ** rng.uniform(-9, -0.3)))
@@ -340,7 +340,7 @@ def run(ctx):
         try:
             s.interpolate_variable(fw.copy(), fa.copy())
         except Exception as exc:
-            ctx.violation('variable:raised', 'SED.interpolate_variable raised inside the table: %r' % (exc,), wit)
+            ctx.raised(exc, 'variable:raised', 'SED.interpolate_variable raised inside the table: %r' % (exc,), wit)
         ctx.case(('var', it, ctx.shard), nontrivial=n_ap >= 2)
         if n_ap >= 2:
             fb = fa.copy()
